@@ -130,6 +130,7 @@ class _Acc:
         self.nondet = []
         self.sigs = set()
         self.nunsigned = 0
+        self.aborted = False
 
     def add(self, idx, case, res, seed):
         n, outcome, nontriv, viols = res
@@ -161,7 +162,7 @@ class _Acc:
     def pack(self):
         return dict(evals=self.evals, trans=self.trans, outcomes=self.outcomes, nontriv=self.nontriv,
                     nontriv_capped=self.nontriv_capped, viols=self.viols, nviol=self.nviol,
-                    digest=self.digest, samples=self.samples, nondet=self.nondet)
+                    digest=self.digest, samples=self.samples, nondet=self.nondet, aborted=self.aborted)
 
 
 def _work_inputs(args):
@@ -177,6 +178,12 @@ def _work_inputs(args):
         acc.add(idx, case, res, seed)
         if len(redo) < 40:
             redo.append((idx, case, res))
+        if acc.nunsigned >= MAX_VIOLS_PER_WORKER:
+            # this shard has already reported the maximum number of violations it may carry: the run is a failed run whatever
+            # the remaining cases say, so stop here (a tree in which e.g. every lookup hangs until the watchdog fires would
+            # otherwise take hours); the part is then reported as NOT exhaustive
+            acc.aborted = True
+            break
     # determinism self-test: the same case must give the same observation twice
     for idx, case, res in redo:
         res2 = _safe_check(part, case)
@@ -222,6 +229,8 @@ def _merge(total, part):
     total["digest"] = (total["digest"] + part["digest"]) & (2**64 - 1)
     total["samples"].extend(part["samples"])
     total["nondet"].extend(part["nondet"])
+    if part.get("aborted"):
+        total["aborted"] = True
 
 
 def _empty_total():
@@ -251,7 +260,9 @@ def run_parts(parts, seed=0, serial=False, log=None):
                 for _, packed in it:
                     _merge(tot, packed)
                 tot["states"] = tot["evals"]
-                tot["exhaustive"] = bool(part.exhaustive)
+                tot["exhaustive"] = bool(part.exhaustive) and not tot.get("aborted")
+                if tot.get("aborted"):
+                    tot["notes"].append("at least one shard stopped after reporting %d violations; its remaining cases were not evaluated" % MAX_VIOLS_PER_WORKER)
             else:
                 _run_bfs(pi, part, tot, pool, seed, log)
             tot["wall_s"] = time.time() - t0
